@@ -808,6 +808,31 @@ def scan_none_discipline(cx: Cx, ob: Ob, fns: list[FunctionInfo]) -> None:
     opt = optional_str_methods(cx)
     falsy = classes_with_falsy_instances(cx)
     opt_inst = optional_instance_methods(cx, set(falsy)) if falsy else {}
+    # helpers the scope's functions call, new to the pinned tree: a parameter declared `str | None` that names a
+    # prefix / identifier / URI prefix and is tested by truthiness takes '' for "not given"
+    import ast as _ast
+
+    from .summ import KNOWN_SIGNATURES as _KS
+
+    helpers = [g for g in cx.model.functions.values() if g.qualname not in _KS and g.parent is None]
+    for g in list(fns) + helpers:
+        for prm in g.params:
+            if prm.name not in ("identifier", "prefix", "uri_prefix", "reference") or prm.annotation is None:
+                continue
+            ann = _ast.unparse(prm.annotation).replace(" ", "")
+            if not ("None" in ann.split("|") or ann.startswith("Optional[")) or "str" not in ann:
+                continue
+            gs = cx.summary(g, ob.id, full=True)
+            for ev, _c in gs.walk():
+                if ev.kind == "guard" and any(tt == ("param", prm.name) for tt in truthiness_tests(ev.a)):
+                    ob.violate(
+                        g.qualname,
+                        where(g, ev.line),
+                        f"{g.name} tests its `{prm.name}: {ann}` parameter by truthiness (`{show(ev.a)[:40]}`): the empty string - a legitimate {prm.name} (the identifier of a URI equal to its URI prefix, rdflib's default prefix) - is taken for 'not given'; use `is None`",
+                        witness=f"{g.name}(.., '') behaves like {g.name}(.., None)",
+                        detail=f"truthiness:param:{prm.name}",
+                    )
+                    break
     for fn in fns:
         s = cx.summary(fn, ob.id)
         seen = set()
@@ -1042,6 +1067,50 @@ def inline_methods(cx: Cx, t, self_term, cls_q: str, names: set[str], depth: int
                 mapping = {("param", k): inline_methods(cx, v, self_term, cls_q, names, depth + 1) for k, v in b.items()}
                 return inline_methods(cx, substitute(body, mapping), self_term, cls_q, names, depth + 1)
     return tuple(inline_methods(cx, x, self_term, cls_q, names, depth) if isinstance(x, tuple) else x for x in t)
+
+
+def positional_shim_check(cx, ob, fn) -> None:
+    """A pinned function whose positional-or-keyword parameters have become keyword-only behind a new ``*args``
+    (deprecated positional passing kept alive): with 1 .. n values passed by position the function must behave as the
+    pinned one does when they are bound, in order, to the parameters that used to sit there."""
+    from .summ import KNOWN_SIGNATURES
+    from .terms import show, substitute
+
+    sig = KNOWN_SIGNATURES.get(fn.qualname)
+    va = next((p for p in fn.params if p.kind == "vararg"), None)
+    if sig is None or va is None or va.name in sig:
+        return
+    pos_now = [p.name for p in fn.params if p.kind == "pos"]
+    moved = [n for n in sig if n not in pos_now and fn.param(n) is not None and fn.param(n).kind == "kwonly"]
+    if not moved:
+        return
+
+    def signature(s_, drop):
+        out = set()
+        for p_ in s_.paths:
+            gs = tuple(sorted((show(g.a), g.b) for g in p_.events if g.kind == "guard" and not any(x == drop for x in subterms(g.a))))
+            calls_ = tuple(sorted(show(e.a) for e in p_.events if e.kind == "expr" and op(e.a) == "call" and "warn" not in show(e.a)[:40]))
+            o_ = (p_.out[0], show(p_.out[1])[:200]) if p_.out is not None else None
+            out.add((gs, calls_, o_))
+        return out
+
+    base = cx.summary(fn, ob.id, bind={va.name: ("tuple", ())})
+    for k in range(1, len(moved) + 1):
+        syms = tuple(("param", f"@pos{i}") for i in range(k))
+        got = signature(cx.summary(fn, ob.id, bind={va.name: ("tuple", syms)}), ("param", va.name))
+        # the pinned reading: the first k moved parameters ARE the positional values
+        want_s = cx.summary(fn, ob.id, bind={va.name: ("tuple", ()), **{moved[i]: syms[i] for i in range(k)}})
+        want = signature(want_s, ("param", va.name))
+        ob.site(f"{fn.where} {fn.qualname}", f"{k} value(s) by position through *{va.name}")
+        if got != want:
+            ob.violate(
+                fn.qualname,
+                fn.where,
+                f"{fn.name} keeps positional {moved} alive through *{va.name}, but with {k} value(s) passed by position it does not behave as with {', '.join(f'{moved[i]}=<value {i + 1}>' for i in range(k))}: a flag lands on the wrong parameter (or a keyword given next to it is overridden)",
+                witness=f"{fn.name}(x, {', '.join(['True'] * k)}) vs {fn.name}(x, {', '.join(f'{moved[i]}=True' for i in range(k))})",
+                detail=f"positional-shim:{k}",
+            )
+            return
 
 
 def new_keyword_bindings(cx, fn, in_scope) -> list[dict]:
@@ -1482,15 +1551,68 @@ def state_closure(cx: Cx, ob: Ob) -> None:
             f"{m.name} writes converter state self.{attr} ({how}); only __init__/add_record/_index/_merge may, so that answers never depend on query history",
             detail=f"state-write:{attr}",
         )
-    # nobody outside the class writes the tables either
+    # nobody outside the class writes the tables either - except to rebuild ALL of them, each the way __init__
+    # derives it, from the records of the very converter they belong to (a working copy refreshed after its records
+    # were renamed): then table and records agree by construction
+    init_s = cx.summary(cx.fn(f"{CONV}.__init__", ob.id), ob.id)
+    init_me = ("param", cx.fn(f"{CONV}.__init__", ob.id).self_name)
+    builders = {}
+    for ev_, _ in init_s.walk():
+        if ev_.kind == "store" and op(ev_.a) == "attr" and ev_.a[1] == init_me and ev_.a[2] in TABLES and op(ev_.b) == "call":
+            builders[ev_.a[2]] = ev_.b[1]
     for fn in cx.model.functions.values():
         if fn.cls is not None and fn.cls.qualname == CONV:
             continue
         fs = cx.summary(fn, ob.id)
+        rebuilt: dict = {}
+
+        def canon(t_):
+            """bound variables numbered in order of appearance"""
+            from .terms import substitute as _subst
+
+            seen_: dict = {}
+            for x_ in subterms(t_):
+                if op(x_) == "bv" and x_ not in seen_:
+                    seen_[x_] = ("bv", -len(seen_) - 1, "_")
+            return _subst(t_, seen_) if seen_ else t_
+
+        for ev, _ in fs.walk():
+            if ev.kind == "store" and op(ev.a) == "attr" and ev.a[2] in TABLES and op(ev.b) == "call" and ev.a[2] in builders and ev.b[1] == builders[ev.a[2]] and len(ev.b[2]) == 1:
+                B = ev.a[1]
+                arg = ev.b[2][0]
+                if arg == ("attr", B, "records") or (ev.a[2] == "trie" and arg == ("attr", B, "reverse_prefix_map")):
+                    rebuilt.setdefault(B, set()).add(ev.a[2])
+            elif ev.kind == "store" and op(ev.a) == "attr" and ev.a[2] in TABLES and ev.a[2] in builders and op(builders[ev.a[2]]) == "func" and isinstance(ev.b, tuple):
+                # the builder's own expression written out in place
+                bf = cx.model.functions.get(builders[ev.a[2]][1])
+                if bf is not None and bf.params:
+                    from .terms import substitute as _subst
+
+                    rets_ = [t_ for t_, _c in cx.summary(bf, ob.id).returns()]
+                    if len(rets_) == 1 and canon(_subst(rets_[0], {("param", bf.params[0].name): ("attr", ev.a[1], "records")})) == canon(ev.b):
+                        rebuilt.setdefault(ev.a[1], set()).add(ev.a[2])
+            elif ev.kind == "expr" and op(ev.a) == "call" and op(ev.a[1]) == "attr" and ev.a[1][2] == "_index" and len(ev.a[2]) == 1:
+                # B._index(record): the class's own way of (re-)entering a record into the four name tables
+                rebuilt.setdefault(ev.a[1][1], set()).update(t_ for t_ in builders if t_ != "pattern_map")
+        complete = {B for B, ts in rebuilt.items() if ts >= set(builders)}
+        for B, ts in rebuilt.items():
+            if B in complete:
+                ob.site(f"{fn.where} {fn.qualname}", f"rebuilds every lookup table of `{show(B)[:30]}` from its own records, as __init__ does")
+            else:
+                missing = sorted(set(builders) - ts)
+                ob.violate(
+                    fn.qualname,
+                    fn.where,
+                    f"{fn.name} rebuilds {sorted(ts)} of a converter from its records but not {missing}: after the records were changed those tables still answer from the old ones (reverse_prefix_map and the trie hold CURIE prefixes as VALUES, pattern_map as keys)",
+                    witness="a record renamed in place: compress / parse_uri keep answering with the old canonical prefix",
+                    detail="foreign-write:partial-rebuild:" + "+".join(missing),
+                )
         for ev, _ in fs.walk():
             if ev.kind == "store":
                 t = ev.a
                 base = t[1] if op(t) in ("item", "attr") else None
+                if op(t) == "attr" and t[2] in TABLES and base in rebuilt and t[2] in rebuilt[base]:
+                    continue  # judged above
                 if op(t) == "item" and op(base) == "attr" and base[2] in TABLES:
                     ob.violate(fn.qualname, where(fn, ev.line), f"{fn.name} writes lookup table .{base[2]} of a converter from outside the class", detail=f"foreign-write:{base[2]}")
                 if op(t) == "attr" and t[2] in TABLES and op(base) == "call" and op(base[1]) == "attr" and base[1][2] == "__new__":
@@ -1920,6 +2042,17 @@ def class_state_closure(cx: Cx, ob: Ob, cls_q: str, allowed=("__init__",)) -> No
     for m, attr, ev, how in self_state_writes(cx, cls_q, ob.id):
         if m.name in allowed:
             continue
+        if attr.startswith("_"):
+            # a private memo that the method itself throws away when a table of the converter has changed size
+            # (the converter only ever grows): whether that test notices every change that matters is a value question
+            ms = cx.summary(m, ob.id, full=True)
+            versioned = any(
+                g.kind == "guard" and any(op(x) == "call" and x[1] == ("builtin", "len") and x[2] and op(x[2][0]) == "attr" and x[2][0][2] in (set(TABLES) | {"records"}) for x in subterms(g.a))
+                for e2, c2 in ms.walk() for g in c2.guards
+            ) or any(e2.kind == "guard" and any(op(x) == "call" and x[1] == ("builtin", "len") and x[2] and op(x[2][0]) == "attr" and x[2][0][2] in (set(TABLES) | {"records"}) for x in subterms(e2.a)) for e2, _ in ms.walk())
+            if versioned:
+                ob.undecide(f"{m.name} keeps a memo in self.{attr} and discards it when the size of a converter table has changed: that every change of the converter that matters changes that size is not decided")
+                continue
         ob.violate(m.qualname, where(m, ev.line), f"{m.name} writes instance/class state self.{attr} ({how}): answers depend on earlier queries", detail=f"state-write:{attr}")
 
 
